@@ -31,7 +31,7 @@ VK = ["scalar", "flat", "flatlist", "colvec", "collist", "ragged", "bad_same_tot
 FLOOR_TAGS = ["vk:" + v for v in VK] + ["mask:scalar", "mask:flat", "r:int", "r:slice+1", "r:slice+k", "r:slice-", "r:list", "r:mask", "r:ell",
                                         "recv:fresh", "recv:lazyrows", "recv:lazycols+2", "recv:lazycols-1", "recv:lazychain", "recv:deepcopy", "recv:pickle", "values:hostile-floats", "valdtype:other", "valdtype:exotic", "ellipsis-padded", "seq", "seq:50+", "vk:selfsel", "overlap", "value-is-receiver",
                                         "c:none", "c:int+", "c:int-", "c:slice+1", "c:slice+k", "c:slice-", "sel-has-empty-row", "e-first", "e-last", "e-mid", "allempty", "norows"]
-FLOOR_MONITORS = ["c03:footprint", "c03:must-refuse", "c03:bystander", "c03:alias", "c03:parent-untouched"]
+FLOOR_MONITORS = ["c03:footprint", "c03:must-refuse", "c03:bystander", "c03:alias", "c03:parent-untouched", "c03:pairs"]
 FP_STRICT = True       # a floating-point event inside the library that the dense computation does not have is a violation (shard.FpMonitor)
 N_RANDOM = {"quick": 24000, "thorough": 300000}
 BASE = 100000
@@ -181,7 +181,72 @@ def gen_seq(rng, tier, nsteps=None):
             "recv": rng.choice(["fresh", "fresh", "lazyrows", "lazycols+2", "lazychain", "ufunc", "pickle", "saveload"])}
 
 
+def run_pairs(case):
+    """ra[R, C] = value with two integer index arrays (broadcast against each other): every addressed cell gets its value -- one scalar, one value
+    per cell, one per row of an outer product (a column vector), one per column (a row vector) --, every other cell keeps its own"""
+    lens, R, C, vk = case["lens"], case["R"], case["C"], case["vk"]
+    recv = case.get("recv", "fresh")
+    pyrows = gen.id_rows(lens)
+    flat = np.array([v for r in pyrows for v in r], dtype=np.int64)
+    tags = ["pairs:" + case.get("form", "1d"), "vk:pairs-" + vk, "recv:" + recv] + gen.empty_placement(lens)
+    try:
+        shape, cells = c02.pairs_model(lens, R, C)
+    except model.Refused:
+        return undefined("index not accepted for reading", tags)
+    if len(set(cells)) != len(cells):
+        return undefined("a cell is addressed twice", tags)
+    k = len(cells)
+    newv = (np.arange(k, dtype=np.int64) * 7 + 700001).reshape(shape)
+    if vk == "scalar":
+        value = 777
+        newv = np.full(shape, 777, dtype=np.int64)
+    elif vk == "colvec" and len(shape) == 2:
+        col = np.arange(shape[0], dtype=np.int64)[:, None] * 11 + 900001
+        value, newv = col, np.broadcast_to(col, shape)
+    elif vk == "rowvec" and len(shape) >= 1:
+        row = np.arange(shape[-1], dtype=np.int64) * 13 + 800001
+        value, newv = row, np.broadcast_to(row, shape)
+    else:
+        vk = "full"
+        value = newv.copy()
+    ra, parent = c02.build_receiver(recv, flat, lens)
+    parent_before = peek(parent) if parent is not None else None
+    before = [np.array(x, copy=True) if isinstance(x, np.ndarray) else None for x in (R, C, value)]
+    exp = [list(r) for r in pyrows]
+    for (i, j), v in zip(cells, np.asarray(newv).reshape(-1).tolist()):
+        exp[i][j] = v
+    CTX.tick("c03:pairs")
+    a = attempt(lambda: ra.__setitem__((R, C), value))
+    desc = "ra[%s, %s] = %s on rows of lengths %s" % (short(R, 70), short(C, 70), short(value, 70), lens)
+    if not a.ok:
+        return violated("%s raised %s: %s (the same index is accepted for reading)" % (desc, type(a.exc).__name__, a.exc), tags, got=repr(a))
+    for x, b4 in zip((R, C, value), before):
+        if b4 is not None and not np.array_equal(x, b4):
+            return violated("%s modified an argument: %s -> %s" % (desc, short(b4), short(x)), tags + ["argument-mutated"])
+    got = peek(ra)
+    if got != exp:
+        return violated("%s leaves %s, cell by cell it must be %s" % (desc, short(got, 220), short(exp, 220)), tags, got=got, expected=exp)
+    if np.asarray(ra.lengths).tolist() != list(lens):
+        return violated("%s changed the row lengths" % desc, tags)
+    if parent is not None and recv.startswith("lazy") is False and peek(parent) != parent_before:
+        return violated("%s changed the array the receiver was derived from" % desc, tags + ["parent-touched"])
+    return held(tags, len(lens) >= 2 and k >= 2)
+
+
+def pairs_cases(rng, lens_list, recvs, per=4):
+    for lens in lens_list:
+        for recv in recvs:
+            for k in range(per):
+                g = c02.gen_pairs(rng, lens)
+                if g is None:
+                    continue
+                vks = ["scalar", "full"] + (["colvec", "rowvec"] if g[2] in ("outer", "2d") else (["rowvec"] if np.asarray(g[1]).ndim >= 1 else []))
+                yield {"kind": "pairs", "lens": list(lens), "R": g[0], "C": g[1], "form": g[2], "recv": recv, "vk": vks[k % len(vks)]}
+
+
 def run(case):
+    if case.get("kind") == "pairs":
+        return run_pairs(case)
     if "seq" in case:
         return run_seq(case)
     if "mask" in case:
@@ -510,6 +575,9 @@ def directed():
     # more than 100000 selected rows, with gaps and empty rows among them (any chunked index construction must agree with the plain one)
     import random
     rng = random.Random(303)
+    # cells addressed by two integer index arrays (pairs, outer products, matrices)
+    for c in pairs_cases(random.Random(3033), ([3, 2, 4, 1, 2], [2, 0, 3], [1, 1, 1], [4], [0, 5, 0, 2], [3, 3, 3], [2, 5, 2, 5]), ("fresh", "lazyrows", "lazycols+2", "lazychain", "fromnumpy", "astype"), per=8):
+        yield c
     for k in range(40):
         yield gen_seq(rng, "quick", nsteps=[5, 12, 50, 60][k % 4])
     for k in range(150):
@@ -628,6 +696,10 @@ def random_case(rng, tier, lens=None, plain=False):
         return gen_seq(rng, tier)
     if not plain and rng.random() < 0.04:
         return gen_selfsel(rng, tier)
+    if not plain and lens is None and rng.random() < 0.04:
+        L_, _ = gen.length_vector(rng, tier)
+        for c_ in pairs_cases(rng, [L_], [rng.choice([r_ for r_ in c02.RECVS if r_ != "readonly"]) if rng.random() < 0.3 else "fresh"], per=1):
+            return c_
     if lens is None:
         lens, _ = gen.length_vector(rng, tier)
     n = len(lens)
@@ -690,6 +762,6 @@ def random_case(rng, tier, lens=None, plain=False):
 def classify(case, res):
     if "seq" in case:
         return None
-    if "mask" in case:
+    if "mask" in case or case.get("kind") == "pairs":
         return None
     return c02.classify(case, res)
